@@ -307,8 +307,9 @@ Commit(idx) ==
     /\ histIn' = IF crashed THEN histIn
                  ELSE Append(histIn, [n \in Ids |-> IF pend[n] # None THEN pend[n] ELSE inputs[n]])
     /\ crashed' = crashed
+    /\ mustCut' = {}      \* obligations do not outlive the epoch
     /\ UNCHANGED <<prog, world, rdrVars, lastRun, running, tainted, outLast, outPrev,
-                   nested, topDone, bpSkip, kfHard, mustCut, ranAt, verAt, armed, fired>>
+                   nested, topDone, bpSkip, kfHard, ranAt, verAt, armed, fired>>
 
 Tracked(idx, t) ==
     /\ live' = live \cup {t}
@@ -525,7 +526,9 @@ CycProbe(idx, callee, target, edges, found) ==
     IN  /\ viol' = IF found # cyc
                    THEN Append(viol, V(idx, "cycle_search_wrong_answer", callee, IF found THEN 1 ELSE 0, IF cyc THEN 1 ELSE 0))
                    ELSE viol
-        /\ mustCut' = IF cyc THEN mustCut \cup onPath \cup {target} ELSE mustCut
+        \* the obligation is attached to the executor runs in flight: a query on the path that is only being
+        \* re-verified (repair) has no executor to cut, and if the request is abandoned it never gets one
+        /\ mustCut' = IF cyc THEN mustCut \cup ((onPath \cup {target}) \cap running) ELSE mustCut
         /\ UNCHANGED <<prog, sessVars, world, rdrVars, runVars, kfTaint, nested, topDone, bpSkip, spSeen, kfFw,
                        kfHard, lagFw, ranAt, verAt, crVars, stats>>
 
